@@ -9,7 +9,7 @@ B_Conns == {"c1", "c2", "c3"}
 B_PeerOf == ("c1" :> "p1") @@ ("c2" :> "p1") @@ ("c3" :> "p2")
 B_Limited == {"c2"}
 St == [seen |-> seen, inmap |-> inmap, apc |-> apc, rpc |-> rpc, queue |-> queue, connected |-> connected,
-       pending |-> pending, last |-> last, nConn |-> nConn, nDisc |-> nDisc, pub |-> pub, closed |-> closed]
+       pending |-> pending, last |-> last, nConn |-> nConn, nDisc |-> nDisc, pub |-> pub, closed |-> closed, rd |-> rd]
 EmitEdge == PrintT(<<"VFEDGE", ToJson([s |-> St, op |-> op', t |-> St'])>>)
 MCInit == Init /\ PrintT(<<"VFINIT", ToJson(St)>>)
 =============================================================================
